@@ -480,5 +480,7 @@ def analyse(obs: Obs, prog):
     is_tp = lambda c: is_t(c, "cmp") and c[1] == "==" and P("primitive") in (c[2], c[3]) and any(is_t(x, "global") and x[1].endswith("trace_p") for x in (c[2], c[3]))
     okd = okd and all(any(pol and is_tp(c) for c, pol in conds) for conds, ret in r.returns if mentions_any(ret, lambda x: is_mcall(x, "handle_trace")))
     rh = Evaluator(prog).eval_fn(SH.methods["handles"], SH.module, SH) if "handles" in SH.methods else None
-    okd = okd and (rh is None or is_tp(rh.ret))
+    # handles: `primitive == trace_p`, or membership in a rule table whose only key is trace_p
+    is_tp_in = lambda c: is_t(c, "cmp") and c[1] == "in" and c[2] == P("primitive") and is_t(c[3], "dict") and len(c[3][1]) == 1 and is_t(c[3][1][0][0], "global") and c[3][1][0][0][1].endswith("trace_p")
+    okd = okd and (rh is None or is_tp(rh.ret) or is_tp_in(rh.ret))
     obs.add({"C22"}, "TRACE-BIND", "StaticHandler.dispatch", okd, derived=[show(u)[:200] for u in un], expected="handle_trace(unwrap(addr), gen_fn, args) unflattened in the order trace() bound them", where=W(SH, "dispatch"))
